@@ -5,7 +5,14 @@
 From stdpp Require Import gmap.
 From Coq Require Import NArith ZArith Lia.
 From P9 Require Import Model.Path Model.Session Model.FidSpec Proofs.SessionProofs Proofs.SessionGhost.
+From P9 Require Gen.GenConsts.
 Open Scope N_scope.
+
+(* the constants the model hard-wires are those of the current source (regenerated on every run) *)
+Lemma consts_match_source :
+  NOFID = GenConsts.c_NOFID ∧ GenConsts.c_OREAD = 0 ∧ GenConsts.c_OWRITE = 1 ∧
+  GenConsts.c_ORDWR = 2 ∧ GenConsts.c_OEXEC = 3.
+Proof. repeat split; reflexivity. Qed.
 
 Definition after (ops : list (op * list tok)) : sess := final sess0 (srun sess0 ops).
 Definition reach (s : sess) : Prop := ∃ ops, no_stop ops ∧ s = after ops.
